@@ -247,3 +247,63 @@ func (sc *Scenario) ForFormat(format string) []Want {
 	}
 	return out
 }
+
+// Meta is a configuration whose metadata strings are symbolic (lower-case
+// letters, fixed short lengths so that no path forks on a length): every
+// relation list has one distinct item, the list chosen by `extra` has two.
+type Meta struct {
+	Info                                                            *nfpm.Info
+	Name, Maintainer, Homepage, License, Vendor, Section, Priority string
+	Desc                                                            string
+	Replaces, Provides, Depends, Recommends, Suggests, Conflicts    []string
+	Breaks, Predepends                                              []string
+}
+
+func word(name string, n int) string {
+	s := zz.NondetStringN(name, n)
+	zz.Assume(zz.AllIn(s, "a-z"))
+	return s
+}
+
+func list(name string, two bool) []string {
+	l := []string{word(name+".0", 2)}
+	if two {
+		l = append(l, word(name+".1", 2))
+		zz.Assume(l[0] != l[1]) // rpm drops exact duplicates within a relation
+	}
+	return l
+}
+
+func NewMeta() *Meta {
+	m := &Meta{}
+	extra := zz.NondetChoice("meta.extra", 9) // 8 = no list has a second item
+	m.Name, m.Maintainer, m.Homepage = "n"+word("name", 2), word("maint", 2), word("home", 2)
+	m.License, m.Vendor, m.Section, m.Priority = word("lic", 2), word("vendor", 2), word("section", 2), word("prio", 2)
+	m.Desc = word("desc", 3)
+	m.Replaces, m.Provides, m.Depends = list("replaces", extra == 0), list("provides", extra == 1), list("depends", extra == 2)
+	m.Recommends, m.Suggests, m.Conflicts = list("recommends", extra == 3), list("suggests", extra == 4), list("conflicts", extra == 5)
+	m.Breaks, m.Predepends = list("breaks", extra == 6), list("predepends", extra == 7)
+	info := &nfpm.Info{Name: m.Name, Arch: "amd64", Platform: "linux", Version: "1.2.3", Release: "2", Description: m.Desc,
+		Maintainer: m.Maintainer, Homepage: m.Homepage, License: m.License, Vendor: m.Vendor, Section: m.Section, Priority: m.Priority,
+		MTime: time.Unix(1700000000, 0).UTC()}
+	info.Umask = 0o022
+	info.RPM.BuildHost = "host"
+	cp := func(l []string) []string { return append([]string{}, l...) }
+	info.Replaces, info.Provides, info.Depends = cp(m.Replaces), cp(m.Provides), cp(m.Depends)
+	info.Recommends, info.Suggests, info.Conflicts = cp(m.Recommends), cp(m.Suggests), cp(m.Conflicts)
+	info.Deb.Breaks, info.Deb.Predepends, info.IPK.Predepends = cp(m.Breaks), cp(m.Predepends), cp(m.Predepends)
+	m.Info = info
+	return m
+}
+
+// Joined renders a relation list the deb822 way.
+func Joined(l []string) string {
+	s := ""
+	for i, x := range l {
+		if i > 0 {
+			s += ", "
+		}
+		s += x
+	}
+	return s
+}
